@@ -217,11 +217,11 @@ theorem deser_err (O : Oracles) (opts : DeserOpts) : ∀ (f : FieldDecl) (ign : 
   | .mapOf kf vf sz, ign, v, e, h => by
     simp only [deser] at h
     refine dMap_err _ v e (fun kvs e' hh => mapE_err _ kvs e' (fun kv _ e3 h3 => ?_) hh) (ite_none_err _ _ _ _ h)
-    cases hv : deser O { opts with keepUndefined := true } false vf kv.2 with
+    cases hv : deser O opts false vf kv.2 with
     | error e4 => rw [hv] at h3; simp at h3; subst h3; exact deser_err O _ vf false kv.2 e4 hv
     | ok v' =>
       rw [hv] at h3; simp only [bindE_ok] at h3
-      cases hk : deser O { opts with keepUndefined := true } false kf kv.1 with
+      cases hk : deser O opts false kf kv.1 with
       | error e4 => rw [hk] at h3; simp at h3; subst h3; exact deser_err O _ kf false kv.1 e4 hk
       | ok k' => rw [hk] at h3; simp at h3
   | .struct c fields defaults, ign, v, e, h => by
